@@ -123,11 +123,20 @@ def _parse_prints(out: str) -> list:
     """PrintT values: TLC prints them on their own lines; a value may span lines.
     We collect lines that start with << or [ or { or ( or a quote and are balanced."""
     prints = []
+    fast = re.compile(r'^<<"(\w+)", "(.*)">>$')
     lines = out.split("\n")
     i = 0
     n = len(lines)
     while i < n:
         ln = lines[i]
+        fm = fast.match(ln) if ln[:3] == '<<"' else None
+        if fm:
+            try:
+                prints.append((fm.group(1), json.loads('"' + fm.group(2) + '"')))
+                i += 1
+                continue
+            except ValueError:
+                pass
         if ln[:2] == "<<" or (ln[:1] in "[{(\"" and not ln.startswith("[]")):
             buf = ln
             j = i
